@@ -133,7 +133,9 @@ class StepSimulation(SimulationUpdateFunction):
                 return Failure(Exception(f"No instruction generator found with name {identifier}"))
             return Success(i_gen)
         elif inspect.isclass(identifier):
-            for i_gen in self.instruction_generators.values():
+            # search in the configured order, not in Map (hash) order, so that the answer is
+            # the same in every process when several generators match the type
+            for i_gen in self.ordered_instruction_generators:
                 if isinstance(i_gen, identifier):
                     return Success(i_gen)
             return Failure(Exception(f"No instruction generator found with type {identifier}"))
